@@ -150,6 +150,15 @@ func absRangeTime(t time.Time) int64 {
 
 func sipAddr(n int) netip.Addr { return netip.AddrFrom4([4]byte{10, 0, 0, byte(n)}) }
 
+// scale > 1 replicates every row of every host result `scale` times under distinct source addresses
+// 10.i.0.n (i < scale) and multiplies totals and hits accordingly. Merging is key-wise, so the expected
+// merged result is the TLC expectation replicated the same way: project() checks that all replicas are
+// identical and complete, and hands replica 0 (with totals / hits divided by scale) to the comparison.
+// This is how results of more than 100 rows (the cap of streaming partial results) are reached.
+var scale = 1
+
+func sipAddrScaled(n, i int) netip.Addr { return netip.AddrFrom4([4]byte{10, byte(i), 0, byte(n)}) }
+
 func counters(c [4]int64) types.Counters {
 	return types.Counters{BytesRcvd: uint64(c[0]), BytesSent: uint64(c[1]), PacketsRcvd: uint64(c[2]), PacketsSent: uint64(c[3])}
 }
@@ -178,22 +187,24 @@ func hostResult(h hostT) (*results.Result, error) {
 	}
 	r.Status = results.Status{Code: code}
 	r.HostsStatuses[h.Name] = results.Status{Code: code}
-	for _, m := range h.Rows {
-		r.Rows = append(r.Rows, results.Row{
-			Labels:     results.Labels{Timestamp: rowTime(m.K.Ts, m.Zone), Iface: m.K.Iface, Hostname: m.K.Host, HostID: m.K.Hid},
-			Attributes: results.Attributes{SrcIP: sipAddr(m.K.Sip)},
-			Counters:   counters(m.C),
-		})
+	for i := 0; i < scale; i++ {
+		for _, m := range h.Rows {
+			r.Rows = append(r.Rows, results.Row{
+				Labels:     results.Labels{Timestamp: rowTime(m.K.Ts, m.Zone), Iface: m.K.Iface, Hostname: m.K.Host, HostID: m.K.Hid},
+				Attributes: results.Attributes{SrcIP: sipAddrScaled(m.K.Sip, i)},
+				Counters:   counters(m.C),
+			})
+		}
 	}
 	r.Query = queryEcho
 	r.Summary.Interfaces = append(results.Interfaces{}, h.Ifaces...)
 	r.Summary.First, r.Summary.Last = rangeTime(h.First), rangeTime(h.Last)
-	r.Summary.Totals = counters(h.Tot)
+	r.Summary.Totals = counters([4]int64{h.Tot[0] * int64(scale), h.Tot[1] * int64(scale), h.Tot[2] * int64(scale), h.Tot[3] * int64(scale)})
 	r.Summary.Stats = &workload.Stats{BytesLoaded: uint64(h.Stats[0]), BytesDecompressed: uint64(h.Stats[1]),
 		BlocksProcessed: uint64(h.Stats[2]), BlocksCorrupted: uint64(h.Stats[3]),
 		DirectoriesProcessed: uint64(h.Stats[4]), Workloads: uint64(h.Stats[5])}
-	r.Summary.Hits.Total = h.Hits
-	r.Summary.Hits.Displayed = len(h.Rows)
+	r.Summary.Hits.Total = h.Hits * scale
+	r.Summary.Hits.Displayed = len(h.Rows) * scale
 	r.Summary.DataAvailable = true
 	// the reply of a host travels as JSON
 	b, err := jsoniter.Marshal(r)
@@ -204,7 +215,7 @@ func hostResult(h hostT) (*results.Result, error) {
 	if err := jsoniter.Unmarshal(b, dec); err != nil {
 		return nil, err
 	}
-	if len(dec.Rows) != len(h.Rows) {
+	if len(dec.Rows) != len(h.Rows)*scale {
 		return nil, fmt.Errorf("JSON transport changed the number of rows of host %s", h.Name)
 	}
 	dec.Hostname = h.Name
@@ -253,27 +264,52 @@ func (o *obsT) normalise() {
 
 // project maps a real result to the observable of the specification.
 func project(r *results.Result) (o obsT, bad string) {
+	replicas := make([][]rowT, scale)
 	for _, row := range r.Rows {
 		a := row.Attributes.SrcIP
-		sip := -1
+		sip, rep := -1, 0
 		if a.Is4() {
 			b := a.As4()
-			if b[0] == 10 && b[1] == 0 && b[2] == 0 {
-				sip = int(b[3])
+			if b[0] == 10 && int(b[1]) < scale && b[2] == 0 {
+				sip, rep = int(b[3]), int(b[1])
 			}
 		}
 		if sip < 0 {
 			bad = "row with an address nobody sent: " + a.String()
 		}
-		o.Rows = append(o.Rows, rowT{K: keyT{Ts: absRowTime(row.Labels.Timestamp), Iface: row.Labels.Iface, Host: row.Labels.Hostname,
+		replicas[rep] = append(replicas[rep], rowT{K: keyT{Ts: absRowTime(row.Labels.Timestamp), Iface: row.Labels.Iface, Host: row.Labels.Hostname,
 			Hid: row.Labels.HostID, Sip: sip}, C: absCounters(row.Counters)})
 	}
+	o.Rows = replicas[0]
+	for i := 1; i < scale; i++ {
+		a, b := append([]rowT{}, replicas[0]...), append([]rowT{}, replicas[i]...)
+		sort.Slice(a, func(x, y int) bool { return rowLess(a[x], a[y]) })
+		sort.Slice(b, func(x, y int) bool { return rowLess(b[x], b[y]) })
+		if !sameRows(a, b) {
+			bad = fmt.Sprintf("scaled result incomplete: replica %d has %d rows, replica 0 has %d (result holds %d rows in total)", i, len(b), len(a), len(r.Rows))
+			break
+		}
+	}
 	o.Tot = absCounters(r.Summary.Totals)
+	if scale > 1 {
+		for k := range o.Tot {
+			if o.Tot[k]%int64(scale) != 0 && bad == "" {
+				bad = "scaled totals are not a multiple of the scale"
+			}
+			o.Tot[k] /= int64(scale)
+		}
+	}
 	if s := r.Summary.Stats; s != nil {
 		o.Stats = [6]int64{int64(s.BytesLoaded), int64(s.BytesDecompressed), int64(s.BlocksProcessed), int64(s.BlocksCorrupted),
 			int64(s.DirectoriesProcessed), int64(s.Workloads)}
 	}
 	o.Hits = r.Summary.Hits.Total
+	if scale > 1 {
+		if o.Hits%scale != 0 && bad == "" {
+			bad = "scaled hit count is not a multiple of the scale"
+		}
+		o.Hits /= scale
+	}
 	for h, st := range r.HostsStatuses {
 		o.Hs = append(o.Hs, hsT{Host: h, Code: statusCode(st.Code), Msg: st.Message})
 	}
@@ -474,7 +510,7 @@ func runOnce(resolvers *hosts.ResolverMap, q interface {
 			if p, ok := m.Data.(*api.PartialResult); ok && p != nil && p.Result != nil {
 				o, bad := project(p.Result) // the sender sees the running result: snapshot it now
 				out.partials = append(out.partials, o)
-				if bad != "" {
+				if bad != "" && scale == 1 { // partial results are capped at 100 rows by design: a scaled partial may be incomplete
 					out.bad = bad
 				}
 			}
@@ -615,6 +651,31 @@ func Replay(seed uint64, racing int, in io.Reader, out io.Writer) {
 			if ds := compare(*final, res.final, b.Stream); len(ds) > 0 {
 				emit(len(order), "final", ds, "returned result")
 			}
+		}
+		// the same behaviour with every row replicated 40 times (results beyond the 100-row cap of partial results)
+		if id%4 == 0 {
+			scale = 40
+			rsS, namesS, errS := build()
+			if errS != nil {
+				scale = 1
+				return errS
+			}
+			resS, rerrS, pS := runOnce(resolvers, &orderedQuerier{results: rsS}, namesS, timed, b.Stream)
+			runs++
+			switch {
+			case pS != "":
+				emit(len(order), "scaled", []diff{{Cls: "panic", Msg: pS}}, "the query runner panicked")
+			case rerrS != nil:
+				emit(len(order), "scaled", []diff{{Cls: "run-error", Msg: rerrS.Error()}}, "the query runner returned an error")
+			case resS.bad != "":
+				emit(len(order), "scaled", []diff{{Cls: "rows-large-result", Msg: resS.bad}}, "result with every row replicated 40 times")
+			default:
+				cmps++
+				if ds := compare(*final, resS.final, b.Stream); len(ds) > 0 {
+					emit(len(order), "scaled", ds, "returned result (rows replicated 40 times)")
+				}
+			}
+			scale = 1
 		}
 		// random interleavings: the same results from concurrent goroutines
 		for k := 0; k < racing; k++ {
